@@ -132,23 +132,27 @@ def build_kmodel(force=False):
     ext = os.path.join(BUILD, "extract")
     subprocess.run(["rm", "-rf", ext])
     os.makedirs(ext)
+    # All Extract/*.v files are merged into ONE extraction run (separate runs would overwrite each other's shared modules):
+    # the union of their `From KV Require Import ...` modules and of their `Separate Extraction ...` items.
     exdir = os.path.join(COQ, "theories", "Extract")
-    # One `Separate Extraction` over the union of all Extract/*.v files: running them one after the other would let
-    # each run overwrite the shared library modules (List0.ml, Datatypes.ml, ...) with only ITS closure.
-    reqs, names = [], []
+    mods, items = [], []
     for ev in sorted(f for f in os.listdir(exdir) if f.endswith(".v")):
         text = strip_coq_comments(open(os.path.join(exdir, ev)).read())
-        for m in re.finditer(r"From\s+KV\s+Require\s+Import\s+(.*?)\.(?=\s)", text, re.S):
-            reqs += [n for n in m.group(1).split() if n not in reqs]
-        m = re.search(r"Separate\s+Extraction\s+(.*?)\.\s*$", text, re.S)
-        if not m:
-            return False, "extraction failed (%s): no `Separate Extraction` list found" % ev
-        names += [n for n in m.group(1).split() if n not in names]
-    with open(os.path.join(ext, "ExtractAll.v"), "w") as f:
-        f.write("From Coq Require Import Extraction ExtrOcamlBasic ExtrOcamlNativeString.\n"
-                "From KV Require Import %s.\nExtraction Blacklist String List Bool.\nSeparate Extraction\n  %s.\n"
-                % (" ".join(reqs), "\n  ".join(names)))
-    rc, out = run_cmd(["coqc", "-Q", os.path.join(COQ, "theories"), "KV", "ExtractAll.v"], cwd=ext, timeout=900)
+        for req in re.finditer(r"From\s+KV\s+Require\s+(?:Import\s+|Export\s+)?(.*?)\.(?=\s)", text, re.S):
+            for name in req.group(1).split():
+                if name not in mods:
+                    mods.append(name)
+        for se in re.finditer(r"Separate\s+Extraction\s+(.*?)\.(?=\s|$)", text, re.S):
+            for it in se.group(1).split():
+                if it not in items:
+                    items.append(it)
+    allv = os.path.join(ext, "ExtractAll.v")
+    with open(allv, "w") as f:
+        f.write("From Coq Require Import Extraction ExtrOcamlBasic ExtrOcamlNativeString.\n")
+        f.write("From KV Require Import %s.\n" % " ".join(mods))
+        f.write("Extraction Blacklist String List Bool.\n")
+        f.write("Separate Extraction\n  %s.\n" % "\n  ".join(items))
+    rc, out = run_cmd(["coqc", "-Q", os.path.join(COQ, "theories"), "KV", allv], cwd=ext, timeout=1800)
     if rc:
         return False, "extraction failed:\n%s" % out
     odir = os.path.join(VERIF, "ocaml")
